@@ -15,7 +15,7 @@ TRUSTED = (
 # id -> (technique, level text, design ref, note)
 CHECKS = {
     "C01": (
-        "exhaustive enumeration of all realizable architectures within tree/edge bounds x complete rule space, real assert_applies vs reference model",
+        "exhaustive enumeration of all realizable architectures within tree/edge bounds (several namings) x complete rule space incl. subject/object overlap and related batches, real assert_applies vs three-valued reference model",
         "Every architecture of Space A (complete import relations) and Space B (edge-bounded, iterated bound) is built with the real graph constructor and every rule of the bounded rule space is evaluated with the real Rule.assert_applies; each verdict is compared with an independent three-valued set-comprehension model. No sampling: the space is enumerated completely within the printed bounds.",
         "DESIGN.md §4 C01",
         TRUSTED + " Architectures are realizable ones (leaf importers); ambiguous documentation corners are counted, not judged.",
@@ -39,7 +39,7 @@ CHECKS = {
         TRUSTED + " No reference model: the laws relate implementation outcomes to each other.",
     ),
     "C05": (
-        "exhaustive enumeration of architectures x layerings (name / regex / mixed definitions) x layer rules; real LayerRule.assert_applies vs layer model, messages with layer tags parsed and compared",
+        "exhaustive enumeration of architectures x layerings (name / regex / mixed definitions, shared definition object) x layer rules in every object order, also after re-application to a decoy architecture; real LayerRule.assert_applies vs layer model, messages with layer tags parsed and compared",
         "For every architecture in the bounds (collision-free and adversarial naming), every partition of every antichain of 2-4 modules into 2-4 layers (0-1 modules in no layer) is defined through the real LayeredArchitecture builder in four definition styles and every layer rule (12 shapes + 2 aliases, every subject layer, 1-2 object layers) is evaluated with the real implementation and compared with the independent layer model, verdict and parsed message.",
         "DESIGN.md §4 C05",
         TRUSTED + " Layer regexes match exactly their layer's modules; layer modules pairwise unrelated, as the property requires.",
@@ -57,7 +57,7 @@ CHECKS = {
         TRUSTED + " Only MUST_ERROR histories are enforced; everything the property does not name is don't-care.",
     ),
     "C06": (
-        "deviation-bounded exhaustive generation of diagram texts in the documented subset, each parsed by the real PumlParser and compared with the generator's ground truth",
+        "deviation-bounded exhaustive generation of diagram texts in the documented subset, each parsed by the real PumlParser and compared with the generator's ground truth; every ordered pair of a pool of small diagrams parsed back to back",
         "For every set of up to 3 (thorough: 4) components, every dependency relation over them and every combination of at most D deviations from the default textual form (declaration form, arrow form, reference form per arrow end, line order, noise outside the tags) the diagram is written to a file and parsed with the real PumlParser; modules and relation must equal the generator's ground truth; files without start/end tag must raise PumlParsingError.",
         "DESIGN.md §4 C06",
         TRUSTED + " Only the documented PlantUML subset is generated; the deviation bound D is reported.",
